@@ -1,4 +1,5 @@
 import Proofs.Ledger.AppsPool
+import Proofs.Ledger.AppsQueue
 /-!
 # C20 — The application staking pool holds exactly the tokens staked by applications
 
@@ -118,6 +119,20 @@ theorem force_unstake_preserves (s : St) (h : PoolInv s) (a : Addr) : PoolInv (f
   let k := forceUnstake_keeps s a
   ⟨k.wf h.1, by rw [k.ex h.1]; exact h.2⟩
 
+/-- **Duplicate unstaking-queue entries are harmless** (the queue slot is a *list*: `SetApplication`
+appends an unstaking address on every call — jail / unjail of an unstaking application,
+`ConvertState`): the end blocker re-reads and re-validates the record at every occurrence, so
+visiting an address again pays nothing and deletes nothing. -/
+theorem dup_queue_entry_harmless_app (l : List Addr) (s : St) (a : Addr) (ha : a ∈ l) :
+    (l ++ [a]).foldl matureOne s = l.foldl matureOne s := dup_entry_noop l s a ha
+
+/-- … and whatever duplicates the queue holds, the end blocker keeps pool = Σ (this is
+`end_block_preserves`, restated for a state reached through jail + unjail of an unstaking application). -/
+theorem dup_queue_end_block_exact (s : St) (h : PoolInv s) (a : Addr) :
+    PoolInv (endBlock (unjail (jail s a) a)) := by
+  have k := ((jail_keeps s a).trans (unjail_keeps (jail s a) a)).trans (endBlock_keeps _)
+  exact ⟨k.wf h.1, by rw [k.ex h.1]; exact h.2⟩
+
 /-! ### non-vacuity: a history through every transition -/
 
 def ops0 : List Op :=
@@ -135,5 +150,14 @@ example : (run s0 ops0).pool = 11000000 ∧ sumBonded (run s0 ops0).apps = 11000
 example : PoolInv (run s0 ops0) := app_pool_inv_partial s0 s0_poolInv ops0 (by
   intro op h src amt e; subst e; simp [ops0] at h)
 example : excess (run s0 [.donate a2 1]) = 1 := by decide +kernel
+
+/-- a2 stakes, begins unstaking, is jailed and unjailed through the keeper (its queue slot then holds
+its address three times), matures with a1's stake still in the pool: paid exactly once. -/
+def opsDup : List Op :=
+  [.stake a2 { pk := [12], addr := a2, chains := ["0021"], value := 2000000 } 10000, .unstake a2 a2 10000,
+   .jail a2, .unjail a2, .beginBlock 4000, .endBlock]
+example : (run s0 (opsDup.take 4)).queue = [(3700, [a2, a2, a2])] := by decide +kernel
+example : (run s0 opsDup).pool = 10000000 ∧ sumBonded (run s0 opsDup).apps = 10000000
+    ∧ balOf (run s0 opsDup) a2 = 49980000 ∧ (run s0 opsDup).queue = [] := by decide +kernel
 
 end C20
